@@ -16,6 +16,9 @@ func stringify(ty *Type, inProcess util.PtrSet) string {
 			return fmt.Sprintf("recursive-type %s@%p", ty.Kind, ty)
 		} else {
 			inProcess.Add(ty)
+			// only a type that is still being printed is recursive; the same
+			// (finite) type may well occur several times, e.g. in `(xs, xs)`
+			defer inProcess.Remove(ty)
 		}
 	}
 
